@@ -20,6 +20,9 @@ KINDS = {
 }
 
 
+UNIFORM_MARKERS_IN_QUICK = ('C03', 'C05', 'C09', 'C17')
+
+
 def specs_c11(tier):
     """books holding two asks and two bids: the request names at most one of each, the others must come through untouched"""
     out = []
@@ -41,7 +44,16 @@ def run(pid, tier, seed, jobs=None, only=None):
     if pid in KINDS:
         kinds = [k for k in KINDS[pid] if not only or k in only]
         specs = ST.specs_for(kinds, tier)
-        return R.run_check(pid, tier, seed, specs, jobs=jobs)
+        extra = []
+        if tier == 'quick' and pid in UNIFORM_MARKERS_IN_QUICK:
+            # these statements do not mention the transfer mechanism: quick explores the two uniform marker assignments of each match
+            # shape (mixed assignments are explored by C01/C02/C10 in quick and by every property in thorough)
+            def uniform(s_):
+                mk = s_.get('markers')
+                return not mk or all(f for _, f in mk) or not any(f for _, f in mk)
+            specs = [s_ for s_ in specs if uniform(s_)]
+            extra = ['quick tier: match shapes explored under the two uniform marker-type assignments only (all restricted / none)']
+        return R.run_check(pid, tier, seed, specs, jobs=jobs, extra_assumptions=extra)
     if pid == 'C06':
         # exits from an arbitrary Inv book + preservation of Inv by every request kind (reduced match shapes: Inv does not depend on the mechanism)
         specs = ST.specs_for([k for k in FUND_MOVERS if k != 'ExecuteMatch'], tier)
